@@ -21,11 +21,11 @@ PROP = "C02"
 LEVEL = "proof"
 GEN_UNITS = ["GenUtils", "GenUtils2", "GenUtils3", "GenKernels", "GenKernels3", "GenMethods3"]   # Props/C02.v states C02_dimscheck_align / C02_ttv_dense_req / C02_ttm_dense_req over the generated tt_dimscheck,
                                         # C02_ttt_dense_req / C02_to_tenmat_req_* over the generated gather_wrap_dims
-COQ_TARGETS = ["Props/C02.vo", "Props/C02w4.vo", "Props/C02w4b.vo", "Model/C02Harness.vo", "Model/C02HarnessW4.vo", "Model/Harness.vo", "Props/W3C02.vo", "Props/W3C02b.vo", "Props/W3Methods3.vo"]
-THEOREM_FILES = ["Props/C02.v", "Props/C02w4.v", "Props/C02w4b.v", "Props/W3C02.v", "Props/W3C02b.v", "Props/W3Methods3.v"]
+COQ_TARGETS = ["Props/C02.vo", "Props/C02w4.vo", "Props/C02w4b.vo", "Props/C02w5.vo", "Props/C02w5b.vo", "Model/C02Harness.vo", "Model/C02HarnessW4.vo", "Model/C02HarnessW5.vo", "Model/Harness.vo", "Props/W3C02.vo", "Props/W3C02b.vo", "Props/W3Methods3.vo"]
+THEOREM_FILES = ["Props/C02.v", "Props/C02w4.v", "Props/C02w4b.v", "Props/C02w5.v", "Props/C02w5b.v", "Props/W3C02.v", "Props/W3C02b.v", "Props/W3Methods3.v"]
 COQ_IMPORTS = ("From Coq Require Import List ZArith Bool Arith QArith Qcanon.\n"
                "From PV Require Import Base.Index Base.Perm Base.Sum Np.Array Model.Sparse Model.Repr Model.Harness "
-               "Np.NpZ Np.NpZ2 Gen.GenUtils Gen.GenUtils2 Model.C02TenmatReq Model.C02DimsReq Model.C02Spec Model.C02Dense Model.C02Sparse Model.C02Modes Model.C02Kruskal Model.C02SpKernels Model.C02Absorb Model.C02Tenmat Model.C02SpMore Model.C02KruskalMore Model.C02Tucker Model.C02TuckerFull Model.C02Harness Model.C02HarnessW4.\n")
+               "Np.NpZ Np.NpZ2 Gen.GenUtils Gen.GenUtils2 Model.C02TenmatReq Model.C02DimsReq Model.C02Spec Model.C02Dense Model.C02Sparse Model.C02Modes Model.C02Kruskal Model.C02SpKernels Model.C02Absorb Model.C02Tenmat Model.C02SpMore Model.C02KruskalMore Model.C02Tucker Model.C02TuckerFull Model.C02Harness Model.C02HarnessW4 Model.C02SpReq Model.C02SumParts Model.C02HarnessW5.\n")
 RULE = ("mttkrp/mttkrps additionally on 4-, 5- and 6-way tensors (<= ~200 entries) with skewed and balanced shapes so that every "
         "split index of min_split and Khatri-Rao products of >= 2 matrices occur in each helper; dims orders include cyclic "
         "(non-involutive) ones; otherwise shapes with <= 4 modes / <= 72 entries incl. distinct sizes (2,3,4), singleton modes and 1-way; every non-empty mode "
@@ -80,6 +80,8 @@ SHAPES_T = SHAPES_Q + [[4], [4, 2], [3, 1], [3, 4, 2], [3, 3, 3], [1, 1, 2], [2,
 # (large trailing mode), balanced 4-way, 5-way (every 5-way tensor has a middle product of >= 2 matrices)
 MTT_SHAPES_Q = [[6, 2, 2, 3], [2, 2, 3, 8], [3, 2, 2, 3], [2, 3, 2, 2, 2], [3, 2, 2, 2, 3], [2, 2, 2, 3, 6]]
 MTT_SHAPES_T = MTT_SHAPES_Q + [[8, 3, 2, 2], [2, 3, 2, 12], [4, 3, 3, 4], [2, 2, 2, 2, 2], [6, 2, 2, 2, 3], [12, 2, 2, 2, 2], [2, 2, 2, 2, 12], [2, 1, 3, 2, 4], [3, 2, 2, 2, 2, 2]]
+
+REGRESSION_N1 = ([2, 3], [4, -8, 0, 0, -3, 6])      # witness of the repaired C02-N1 (F-ordered data of [[4, 0, -3], [-8, 0, 6]])
 
 # ---------------------------------------------------------------- generators
 def mode_requests(rng, N, big):
@@ -329,6 +331,57 @@ def gen_cases(rng, tier):
                 rng.shuffle(modes)
             samples = [[rng.randrange(shp[m]) for _ in range(rng.randint(1, 3))] for m in modes]
             cases.append(Case("reconstruct", {"X": T, "modes": modes, "samples": samples}, nontriv(T)))
+    # ---- regression inputs of repaired findings (ordinary cases: no attribution).  C02-N1 (5f8b038): dense / sparse holder, sparse mask without entry
+    for rep_, org_ in (("dense", None), ("dense", "shape_only"), ("sparse", None), ("sparse", "shape_only")):
+        Xr = X_dense(*REGRESSION_N1) if rep_ == "dense" else X_sparse(REGRESSION_N1[0], *tgen.dense_to_sparse(*REGRESSION_N1))
+        Wr = X_sparse(REGRESSION_N1[0], [], [])
+        if org_:
+            Wr["origin"] = org_
+        cases.append(Case("mask", {"X": Xr, "W": Wr}, True))
+    # ---- rejection stream (wave 5): requests OUTSIDE the domain of contract / sptensor.scale / sptensor.collapse must be rejected, by pyttb and by
+    #      the request-level models of Model/C02SpReq.v alike: negative / out-of-range / equal / unequally sized contraction modes (dense and
+    #      sparse holders; db95721), an ill-shaped tensor / sptensor scaling factor for receivers WITH and WITHOUT stored entries (d89c921), an
+    #      ill-sized ndarray factor (receiver with entries), negative / out-of-range / repeated mode lists
+    for shp in shapes:
+        N = len(shp)
+        fam = family(rng, shp, 0.5)
+        if not fam["sparse"]["subs"]:
+            fam = family(rng, shp, 1.0)
+        degs = degenerate_sparse(rng, shp)
+        holders = [fam["dense"], fam["sparse"], degs[rng.randrange(3)]]
+        bad = [(-1, 0), (0, -1), (N, 0), (0, N), (-N, N - 1), (0, 0), (N - 1, N - 1), (-2, 0), (N - 1, -N)]
+        bad += [(i, j) for i in range(N) for j in range(N) if i != j and shp[i] != shp[j]]
+        bad = sorted(set(bad))
+        for Xh in holders:
+            for (i1, i2) in (bad if big else rng.sample(bad, min(4, len(bad)))):
+                cases.append(Case("contract", {"X": Xh, "i1": i1, "i2": i2, "rej": True}, True))
+        bad_dims = [[-1], [N], [0, 0], [0, N], [-N]] + ([[1, 0, 1]] if N >= 2 else [])
+        for Xh in holders[1:]:
+            has = bool(Xh["subs"])
+            for d in (bad_dims if big else rng.sample(bad_dims, 2)):
+                cases.append(Case("collapse", {"X": Xh, "dims": d, "rej": True}, True))
+                fshape = [2] * len(d)
+                cases.append(Case("scale", {"X": Xh, "dims": d, "fshape": fshape, "fdata": tgen.rand_dense(rng, fshape, 1.0, 1, 3),
+                                            "fkind": rng.choice(["tensor", "sptensor"]), "rej": True}, True))
+            subsets = [list(cmb) for r in range(1, N + 1) for cmb in itertools.combinations(range(N), r)]
+            for d in rng.sample(subsets, min(len(subsets), 6 if big else 3)):
+                if rng.random() < 0.4:
+                    rng.shuffle(d)
+                want = [shp[m] for m in sorted(d)]
+                wrong = [want[:j] + [want[j] + 1] + want[j + 1:] for j in range(len(want))] + [want + [1], want + [2]]
+                if len(want) >= 2:
+                    wrong += [want[::-1], want[1:]]
+                if want[0] > 1:
+                    wrong.append([want[0] - 1] + want[1:])
+                wrong = [w for w in wrong if w != want]
+                for fshape in rng.sample(wrong, min(4 if big else 2, len(wrong))):
+                    fdata = tgen.rand_dense(rng, fshape, 1.0, 1, 3)
+                    for fk in (("tensor", "sptensor") if big else (rng.choice(["tensor", "sptensor"]),)):
+                        cases.append(Case("scale", {"X": Xh, "dims": d, "fshape": fshape, "fdata": fdata, "fkind": fk, "rej": True}, True))
+                if has and len(d) == 1:
+                    fshape = [want[0] + rng.choice([1, 2])]
+                    cases.append(Case("scale", {"X": Xh, "dims": d, "fshape": fshape, "fdata": tgen.rand_dense(rng, fshape, 1.0, 1, 3),
+                                                "fkind": "ndarray", "rej": True}, True))
     # ---- degenerate sparse operands in EVERY sparse product stream: no stored entry (three origins) / exactly one stored entry
     #      (two origins); multiplicands in varying memory layouts
     for shp in shapes:
@@ -540,8 +593,12 @@ def gen_cases(rng, tier):
         cases.append(Case("mttkrps", {"X": Xd, "U": U}, True))
     # ---- ttt: outer and contracted products of two dense tensors
     pairs = [([2, 3], [3, 2]), ([2], [3]), ([3, 2], [2, 3, 2]), ([2, 3, 2], [2, 2, 3]), ([2, 3], [2, 3]), ([3], [3]), ([2, 1], [1, 3])]
+    # FULL contractions of two EQUALLY SHAPED tensors with repeated mode sizes (square / cubical / partly repeated): every pairing
+    # selfdims[k] <-> otherdims[k] of equally sized modes, i.e. different permutations on the two sides (A.ttt(B, [0,1], [1,0]) = trace(A B),
+    # not <A, B>); the full contractions of these pairs are generated exhaustively, never sampled
+    pairs += [([3, 3], [3, 3]), ([2, 2, 2], [2, 2, 2]), ([2, 3, 2], [2, 3, 2])]
     if big:
-        pairs += [([2, 3, 4], [4, 3]), ([3, 2, 2], [2, 3]), ([2, 2], [2, 2]), ([4, 2], [2, 4, 1])]
+        pairs += [([2, 3, 4], [4, 3]), ([3, 2, 2], [2, 3]), ([2, 2], [2, 2]), ([4, 2], [2, 4, 1]), ([3, 3, 3], [3, 3, 3]), ([2, 2, 3], [2, 2, 3]), ([1, 2, 2], [2, 1, 2])]
     for s1, s2 in pairs:
         a = X_dense(s1, tgen.rand_dense(rng, s1, 0.8))
         b = X_dense(s2, tgen.rand_dense(rng, s2, 0.8))
@@ -556,7 +613,7 @@ def gen_cases(rng, tier):
         for r in range(1, min(len(s1), len(s2)) + 1):
             for sd in itertools.permutations(range(len(s1)), r):
                 for od in itertools.permutations(range(len(s2)), r):
-                    if all(s1[x] == s2[y] for x, y in zip(sd, od)) and (big or rng.random() < 0.6):
+                    if all(s1[x] == s2[y] for x, y in zip(sd, od)) and (big or r == len(s1) == len(s2) or rng.random() < 0.6):
                         cases.append(Case("ttt", {"X": a, "Y": b, "sd": list(sd), "od": list(od)}, True))
     # ---- ttsv: cubical tensors, same vector in all modes after skip_dim
     for shp in ([2, 2], [3, 3], [2, 2, 2], [3, 3, 3], [2, 2, 2, 2]):
@@ -735,10 +792,49 @@ def _dlit(ob):
     return tgen.gdense(ob["shape"], ob["data"]) if ob["k"] in ("dense", "array") else tgen.gdense([], [ob["v"]])
 
 
+def _glit(x):
+    """operand literal in its own class (dense / sparse / Kruskal / Tucker)"""
+    r = x["rep"]
+    if r == "dense":
+        return tgen.gdense(x["shape"], x["data"])
+    if r == "sparse":
+        return tgen.gsparse(x["shape"], x["subs"], x["vals"])
+    if r == "k":
+        return tgen.gktensor(x["weights"], x["factors"])
+    if r == "t":
+        return tgen.gttensor(x["core_shape"], x["core_data"], x["factors"])
+    raise ValueError(r)
+
+
+def _gparts(x):
+    """the parts of a sumtensor literal as a list of Model/C02SumParts.v `part`s"""
+    con = {"dense": "PD", "sparse": "PS", "k": "PK", "t": "PT"}
+    return "[" + "; ".join(f"({con[p['rep']]} {_glit(p)})" for p in x["parts"]) + "]"
+
+
+def _req_expr(c):
+    """Gallina expression: the request-level model (Model/C02SpReq.v / C02HarnessW5.v) applied to the caller's raw arguments"""
+    a = c.args
+    X = a["X"]
+    if c.op == "collapse" and X["rep"] == "sparse":
+        return f"(zcollapse_req_sp {tgen.gsparse(X['shape'], X['subs'], X['vals'])} {gopt(a['dims'], gzlist)})"
+    if c.op == "contract" and X["rep"] == "sparse":
+        return f"(zcontract_req_sp {tgen.gsparse(X['shape'], X['subs'], X['vals'])} {gz(a['i1'])} {gz(a['i2'])})"
+    if c.op == "contract" and X["rep"] == "dense":
+        return f"(zcontract_req_dense {tgen.gdense(X['shape'], X['data'])} {gz(a['i1'])} {gz(a['i2'])})"
+    if c.op == "scale" and X["rep"] == "sparse":
+        nd = "true" if a["fkind"] == "ndarray" else "false"
+        return (f"(zscale_req_sp {tgen.gsparse(X['shape'], X['subs'], X['vals'])} {gzlist(a['dims'])} {nd} {gnlist(a['fshape'])} "
+                f"(zden {tgen.gdense(a['fshape'], a['fdata'])}))")
+    raise ValueError((c.op, X["rep"]))
+
+
 def coq_check(c, o):
     a = c.args
+    if a.get("rej"):            # rejection stream: the request is outside the operation's domain: pyttb must raise AND the request-level model must say Err
+        return f"zres_err {_req_expr(c)}" if "exc" in o else "false"
     if "exc" in o:
-        return "false"          # every request generated here is admissible
+        return "false"          # every other request generated here is admissible
     ob = o["ok"]
     X = a["X"]
     shp = shape_of(X)
@@ -794,6 +890,10 @@ def coq_check(c, o):
                 e += f" && k_eqb {mdl} {tgen.gktensor(ob['weights'], ob['factors'])}"
             else:
                 e += f" && (zsumw {mdl} =? {gz(ob['v'])})%Z"
+        if X["rep"] == "sum":          # sumtensor.ttv part by part, every part by its own ttv model (C02_sum_ttv_parts)
+            order = sorted(range(len(dims)), key=lambda j: dims[j])
+            sd, sv = [dims[j] for j in order], [vs[j] for j in order]
+            e += " && " + gmatch(rs, f"(zttv_sum {_gparts(X)} {gnlist(sd)} {gvecs(sv)})", ob)
         if X["rep"] == "k" and len(dims) == 1 and ob["k"] == "ktensor" and obs_ints(ob):
             e += (f" && k_eqb (zimpl_ttv_k1 {tgen.gktensor(X['weights'], X['factors'])} {dims[0]} {gzlist(vs[0])}) "
                   f"{tgen.gktensor(ob['weights'], ob['factors'])}")
@@ -869,6 +969,8 @@ def coq_check(c, o):
                 lit = (f"zimpl_mttkrp_sp {tgen.gsparse(X['shape'], X['subs'], X['vals'])}" if X["rep"] == "sparse"
                        else f"zimpl_mttkrp_k {tgen.gktensor(X['weights'], X['factors'])}")
                 e += " && " + gmatch([shp[a["n"]], R], f"(fun i_ => {lit} {UsK} {a['n']} (nth 0 i_ 0%nat) (nth 1 i_ 0%nat))", ob)
+            if X["rep"] == "sum":    # sumtensor.mttkrp part by part, every part by its own mttkrp model (C02_sum_mttkrp_parts)
+                e += " && " + gmatch([shp[a["n"]], R], f"(fun i_ => zmttkrp_sum {_gparts(X)} {UsK} {a['n']} {R} (nth 0 i_ 0%nat) (nth 1 i_ 0%nat))", ob)
             if X["rep"] == "t":      # ttensor.mttkrp (Model/C02Tucker.v): U_n (core.mttkrp(U_i^T V_i, n))
                 lit = f"zimpl_mttkrp_t {tgen.gttensor(X['core_shape'], X['core_data'], X['factors'])}"
                 e += " && " + gmatch([shp[a["n"]], R], f"(fun i_ => {lit} {UsK} {a['n']} {R} (nth 0 i_ 0%nat) (nth 1 i_ 0%nat))", ob)
@@ -912,6 +1014,14 @@ def coq_check(c, o):
                 e += f" && (zimpl_innerprod_k_dense {tgen.gktensor(Kk['weights'], Kk['factors'])} {tgen.gdense(Oo['shape'], Oo['data'])} =? {gz(ob['v'])})%Z"
             else:
                 e += f" && (zimpl_innerprod_k_sp {tgen.gktensor(Kk['weights'], Kk['factors'])} {tgen.gsparse(Oo['shape'], Oo['subs'], Oo['vals'])} =? {gz(ob['v'])})%Z"
+        if reps[0] == "sum" and reps[1] in ("dense", "sparse"):     # sumtensor.innerprod part by part (C02_sum_innerprod_parts_dense / _sparse)
+            fn = "zinnerprod_sum_dense" if reps[1] == "dense" else "zinnerprod_sum_sp"
+            e += f" && ({fn} {_gparts(X)} {_glit(Y)} =? {gz(ob['v'])})%Z"
+        if "k" in reps and reps != ("k", "k") and "sum" not in reps:
+            # ktensor.innerprod(tensor | sptensor | ttensor), ring-generic loop model (C02_innerprod_kruskal_dense / _sparse / _tucker)
+            Kk, Oo = (X, Y) if reps[0] == "k" else (Y, X)
+            fn = {"dense": "zinnerprod_k_dense_r", "sparse": "zinnerprod_k_sp_r", "t": "zinnerprod_k_t_r"}[Oo["rep"]]
+            e += f" && ({fn} {_glit(Kk)} {_glit(Oo)} =? {gz(ob['v'])})%Z"
         if reps == ("k", "k"):
             e += f" && (zimpl_innerprod_kk {tgen.gktensor(X['weights'], X['factors'])} {tgen.gktensor(Y['weights'], Y['factors'])} =? {gz(ob['v'])})%Z"
         if X["rep"] == "dense" and a["Y"]["rep"] == "dense":
@@ -941,6 +1051,9 @@ def coq_check(c, o):
             e += f" && zres_is (zimpl_collapse_req {tgen.gdense(X['shape'], X['data'])} {gopt(a['dims'], gzlist)}) {_dlit(ob)}"
         if X["rep"] == "sparse":
             e += " && " + gmatch(rs, f"(zimpl_collapse_sp {tgen.gsparse(X['shape'], X['subs'], X['vals'])} {gnlist(sorted(dims))})", ob)
+            # the call as written (dims in the caller's order, or None), resolved by the GENERATED tt_dimscheck (Model/C02SpReq.v, C02_collapse_sparse_req_caller / _all)
+            rq = _req_expr(c)
+            e += f" && zres_accepts {rq} && " + gmatch(rs, f"(zmemo {gnlist(rs)} (zres_fun {rq}))", ob)
         return e
     if c.op == "contract":
         rs = [shp[m] for m in range(N) if m not in (a["i1"], a["i2"])]
@@ -948,8 +1061,12 @@ def coq_check(c, o):
         e = gmatch(rs, f, ob) + gkind(c, ob, rs, f)
         if X["rep"] == "dense" and ob["k"] in ("dense", "scalar") and obs_ints(ob):
             e += f" && dense_eqb (zimpl_contract_dense {tgen.gdense(X['shape'], X['data'])} {a['i1']} {a['i2']}) {_dlit(ob)}"
+            # the call as written: range / size / distinctness tests in front of the kernel (Model/C02SpReq.v, C02_contract_dense_req)
+            e += f" && zres_is {_req_expr(c)} {_dlit(ob)}"
         if X["rep"] == "sparse":
             e += " && " + gmatch(rs, f"(zimpl_contract_sp {tgen.gsparse(X['shape'], X['subs'], X['vals'])} {a['i1']} {a['i2']})", ob)
+            rq = _req_expr(c)                                # C02_contract_sparse_req
+            e += f" && zres_accepts {rq} && " + gmatch(rs, f"(zmemo {gnlist(rs)} (zres_fun {rq}))", ob)
         return e
     if c.op == "scale":
         sd = sorted(a["dims"])
@@ -968,6 +1085,12 @@ def coq_check(c, o):
             if X.get("origin") is None and X["subs"]:
                 e += f" && sp_raw_eqb {mdl} {lit}"
             e += f" && wf_spb zisz {lit} && fun_matches {gnlist(shp)} (zden_sp {mdl}) (zden_sp {lit})"
+            # the call as written: tt_dimscheck (GENERATED), the factor's shape test (before the "nothing stored" return: d89c921), the kernel
+            # (Model/C02SpReq.v, C02_scale_sparse_req); raw stored lists when the operand's stored order is the literal's
+            rq = _req_expr(c)
+            e += f" && zres_accepts {rq} && fun_matches {gnlist(shp)} (zden_sp (zres_sp {rq})) (zden_sp {lit})"
+            if X.get("origin") is None and X["subs"]:
+                e += f" && sp_raw_eqb (zres_sp {rq}) {lit}"
         return e
     if c.op == "mask":
         if not tgen.all_int(ob["vals"]):
@@ -1121,6 +1244,9 @@ def expected(c, o=None):
 
 
 def oracle(c, o):
+    if c.args.get("rej"):
+        return None if "exc" in o else ("a request outside the operation's domain (mode negative / out of range / repeated, unequally sized modes, ill-shaped "
+                                        "scaling factor) was answered: no sum over indices is defined for it")
     if "exc" in o:
         return f"admissible request raised {o['exc']}: {o.get('msg')}"
     ob = o["ok"]
@@ -1155,28 +1281,7 @@ def oracle(c, o):
 
 # ---------------------------------------------------------------- known findings
 # A-02, A-03, A-04, A-05, A-49, A-50, A-51 are repaired in /repo (findings.d/C02.jsonl: "fixed"): no attribution, every disagreement is reported.
-# Open: C02-N1 (wave 4) - tensor.mask / sptensor.mask with a sparse mask that stores no entry (proposed repair fixes/C02-N1.diff).
-def _trig_mask_empty_sparse(c):
-    """exactly the failing class: the mask is an sptensor without stored entry AND the data are held dense or sparse (Kruskal: repaired)"""
-    a = c.args
-    return (c.op == "mask" and a["W"]["rep"] == "sparse" and not a["W"]["subs"] and a["X"]["rep"] in ("dense", "sparse"))
-
-
-def _wit_mask_empty_sparse():
-    import numpy as np
-    import pyttb as ttb
-    D = ttb.tensor(np.array([[4.0, 0.0, -3.0], [-8.0, 0.0, 6.0]]))
-    bad = []
-    for X, nm in ((D, "tensor"), (D.to_sptensor(), "sptensor")):
-        for W in (ttb.sptensor(shape=(2, 3)), ttb.sptensor(np.zeros((0, 2), dtype=int), np.zeros((0, 1)), (2, 3))):
-            try:
-                r = np.asarray(X.mask(W))
-                if r.size != 0:
-                    bad.append(f"{nm}.mask(empty sptensor) returned {r.size} value(s), shape {r.shape}")
-            except Exception as ex:
-                bad.append(f"{nm}.mask(empty sptensor) raised {type(ex).__name__}")
-    return "; ".join(sorted(set(bad))) or None
-
-
-TRIGGERS = {"mask_empty_sparse_mask_dense_or_sparse_holder": _trig_mask_empty_sparse}
-WITNESSES = {"C02-N1": _wit_mask_empty_sparse}
+# C02-N1 (wave 4: tensor.mask / sptensor.mask with a sparse mask that stores no entry) is repaired too (5f8b038): empty masks are an ordinary input
+# class (stream "a mask WITHOUT any nonzero"), the former witness is the regression input REGRESSION_N1 of gen_cases.  No open finding.
+TRIGGERS = {}
+WITNESSES = {}
